@@ -251,7 +251,7 @@ class DGen(F.Gen):
         body = init + self.block(depth, nstmts)
         kernel = unit('kernel', args, decls, body)
         prog = {'units': [kernel] + units}
-        used = {s['name'] for u in prog['units'] for s in flat(u['body']) if s['s'] == 'call'}
+        used = {s['name'] for s in flat(kernel['body']) if s['s'] == 'call'}
         used |= {'f1'} if 'fcall' in self.f else set()
         for _ in range(3):      # helpers called by used helpers
             used |= {s['name'] for u in prog['units'] if u['name'] in used for s in flat(u['body']) if s['s'] == 'call'}
@@ -655,7 +655,7 @@ def earlier_definer(ix, sets, top, leaf, var):
     return None
 
 
-def classify(ix, sets, miss):
+def classify0(ix, sets, miss):
     """Normal-form key of one miss <<clause, node, var, leaf, aux>> (names abstracted to roles)."""
     cl, node, var, leaf, aux = miss
     nk = ix.kind(node)
@@ -680,6 +680,13 @@ def classify(ix, sets, miss):
         kd = earlier_definer(ix, sets, node, leaf, var)
         if kd is not None:
             return f'uses:read-after-conditional-def:by-{ix.nokill(kd, var, sets)}:{role}'
+        # WHERE (m1) ... ELSEWHERE (m2) ...: visit_MaskedStatement carries the defines of one masked body over to the next
+        for i in [node] + (ix.path(node, leaf) or []):
+            if ix.kind(i) == 'where' and isinstance(ix.info[leaf]['arm'], tuple) and ix.info[leaf]['parent'] == i:
+                arm = ix.info[leaf]['arm'][1]
+                w = ix.info[i]['s']
+                if arm is not None and any(var in sets[a['id'] - 1]['d'] for b in w['bodies'][:arm] for a in b):
+                    return f'uses:read-after-def-in-other-where-body:{role}'
         return f'uses:unexplained:{nk}:{lk}:{role}'
     if cl == 'L':
         intent = next((d['intent'] for d in u['decls'] if d['name'] == var and var in u['args']), None)
@@ -745,6 +752,16 @@ def classify(ix, sets, miss):
                     return f"raw:candidate-cleared-by:{'/'.join(chain + [ix.nokill(s_['id'], var, sets)])}:{role}"
         return f'raw:unexplained:{ix.kind(node)}:{lk}:{role}'
     return f'{cl}:unknown'
+
+
+def classify(ix, sets, miss):
+    key = classify0(ix, sets, miss)
+    if 'unexplained' in key:
+        # the variable is also accessible under an ASSOCIATE name in this unit: Loki compares symbols by name
+        u = ix.info[miss[1]]['unit']
+        if any(t.get('name') == miss[2] for s in flat(u['body']) if s['s'] == 'assoc' for t in s['targets']):
+            return key.split(':')[0] + ':alias-of-associate-name:' + key.split(':')[-1]
+    return key
 
 
 def stmt_text(ix, i):
